@@ -64,12 +64,16 @@ pub enum Fam {
     SharedOuter,
     /// (e) `|_k, _v| shared.clone()`, `shared = state.constant(8)` created before the operator
     SharedConst,
+    /// (e) `|_k, _v| shared.clone()`, `shared = outer.map(|d| 50 + d / 2)` (collapsing: it can recompute
+    /// to an equal value), and `outer` is also observed on its own, so that it is recomputed while the
+    /// shared node is unneeded (no keys) -- added after seeded change C16-a
+    SharedHalfPinned,
 }
 
 impl Fam {
-    pub const ALL: [Fam; 9] = [Fam::Pure, Fam::Identity, Fam::Map2, Fam::BindExisting, Fam::BindFresh, Fam::IgnoreConst, Fam::IgnoreOuter, Fam::SharedOuter, Fam::SharedConst];
+    pub const ALL: [Fam; 10] = [Fam::Pure, Fam::Identity, Fam::Map2, Fam::BindExisting, Fam::BindFresh, Fam::IgnoreConst, Fam::IgnoreOuter, Fam::SharedOuter, Fam::SharedConst, Fam::SharedHalfPinned];
     pub fn uses_outer(self) -> bool {
-        matches!(self, Fam::Map2 | Fam::BindExisting | Fam::BindFresh | Fam::IgnoreOuter | Fam::SharedOuter)
+        matches!(self, Fam::Map2 | Fam::BindExisting | Fam::BindFresh | Fam::IgnoreOuter | Fam::SharedOuter | Fam::SharedHalfPinned)
     }
     pub fn name(self) -> &'static str {
         match self {
@@ -82,6 +86,7 @@ impl Fam {
             Fam::IgnoreOuter => "ignore_outer",
             Fam::SharedOuter => "shared_outer",
             Fam::SharedConst => "shared_const",
+            Fam::SharedHalfPinned => "shared_half_pinned",
         }
     }
     /// the family of the property text this variant belongs to (used in cause signatures)
@@ -92,7 +97,7 @@ impl Fam {
             Fam::Map2 => "map2",
             Fam::BindExisting | Fam::BindFresh => "bind",
             Fam::IgnoreConst | Fam::IgnoreOuter => "ignore",
-            Fam::SharedOuter | Fam::SharedConst => "shared",
+            Fam::SharedOuter | Fam::SharedConst | Fam::SharedHalfPinned => "shared",
         }
     }
     fn from_name(s: &str) -> Option<Fam> {
@@ -117,6 +122,7 @@ impl Fam {
             Fam::IgnoreOuter => 10 * k + d,
             Fam::SharedOuter => 50 + d,
             Fam::SharedConst => KONST,
+            Fam::SharedHalfPinned => 50 + d.div_euclid(2),
         }
     }
 }
@@ -362,6 +368,13 @@ fn user_fn<T: Out>(fam: Fam, state: &IncrState, outer: &Incr<i32>) -> UserFn<T> 
             let shared = state.constant(T::wrap(KONST));
             Box::new(move |_k, _v| shared.clone())
         }
+        Fam::SharedHalfPinned => {
+            let shared = outer.map(move |d| {
+                log(Ev::Fn { key: None, role: "shared", args: vec![*d] });
+                T::wrap(fam.per_key(0, 0, *d))
+            });
+            Box::new(move |_k, _v| shared.clone())
+        }
     };
     let mut inner = inner;
     Box::new(move |k, v| {
@@ -439,6 +452,8 @@ struct Real {
     out: OutNode,
     var: InVar,
     outer_var: Var<i32>,
+    /// family `shared_half_pinned`: an observer of its own on the outer variable
+    _outer_pin: Option<Observer<i32>>,
     state: IncrState,
 }
 
@@ -665,7 +680,8 @@ impl World for PkWorld {
                 OutNode::B(i) => Obs::B(i.observe()),
                 OutNode::O(i) => Obs::O(i.observe()),
             });
-            Real { obs, out, var, outer_var, state }
+            let _outer_pin = if p.fam == Fam::SharedHalfPinned { Some(outer_var.watch().observe()) } else { None };
+            Real { obs, out, var, outer_var, _outer_pin, state }
         });
         let _ = take_log();
         let (real, dead) = match built {
